@@ -321,6 +321,16 @@ def pred(ctx, name, inp, klass=None):
 
 
 # ------------------------------------------------------------------ generators
+def budget(ctx, key, n):
+    """The runner keeps the first 500 failures of a shard.  Inputs in the region of a LISTED finding fail by the
+    hundred; to keep new failures visible only the first n such inputs per shard are evaluated, the others are counted."""
+    b = ctx.__dict__.setdefault('_budget', {})
+    b[key] = b.get(key, 0) + 1
+    if b[key] == n + 1:
+        ctx.notes.append('known-finding region %s: only the first %d inputs of each shard are evaluated' % (key, n))
+    return b[key] <= n
+
+
 def gen_ell(rng):
     r = rng.random()
     if r < 0.3:
@@ -516,6 +526,8 @@ def generate(ctx, shard=0, nshards=1):
         obl = rng.uniform(22.0, 24.5)
         pe_tie(lon, lat, semi, obs, obl, sid, dist, h, 'parallax_ecliptical')
         fl = ecl_flag(lon, lat, obs, obl, sid, dist, h)
+        if fl and not budget(ctx, 'ecl%d' % fl, 60):
+            continue        # region of a listed finding: evaluated on the first inputs of the shard only (see budget)
         pred(ctx, 'parallax_ecliptical_bound', [lon, lat, semi, obs, obl, sid, dist, h, fl],
              'parallax_ecliptical_bound/' + ('other', 'south_front', 'lon_90_270', 'south_front+lon_90_270')[fl])
 
